@@ -178,7 +178,11 @@ def check(ck):
             raise AnalysisError("anchor vanished: %s call in %s" % (callee, meth))
         for (n, c) in cs:
             t = q.arg_origin(fm, n, c, "rpcid", 2 if callee.endswith("dump") else 4)
-            ck.require(t is not None and q.self_attr(t, "rpcid"), "C03.2", "jsonrpc.%s: rpcid=" % meth,
+            # the stored id, or - for a caller that forces one - the forced id itself, both verbatim
+            alts_ = prov.alts(t) if t is not None else []
+            okk_ = bool(alts_) and any(q.self_attr(a, "rpcid") for a in alts_) and \
+                all(q.self_attr(a, "rpcid") or a == ("param", "rpcid") for a in alts_)
+            ck.require(okk_, "C03.2", "jsonrpc.%s: rpcid=" % meth,
                        "passes self.rpcid", "%s passes %s as id" % (meth, prov.show(t) if t else "nothing"), q.loc(fm, n))
     fds = prog.func("jsonrpc", "dumps")
     for (n, c) in q.call_sites(prog, fds, lambda r, c: q.is_func(r, "jsonrpc.dump")):
